@@ -18,6 +18,8 @@ git apply "$PATCH" || { echo "RESULT patch-does-not-apply"; cleanup; exit 1; }
 if grep -q "^FAIL\|^--- FAIL" "$WT/tests.log"; then echo "RESULT existing-tests-fail-with-change"; grep "^FAIL\|^--- FAIL" "$WT/tests.log" | head; cleanup; exit 1; fi
 echo "existing tests pass with the change ($(grep -c '^ok' "$WT/tests.log") packages ok)"
 mkdir -p "$(dirname "$DEST")"; cp "$DEMO" "$DEST"
+# EXTRA="src:dest,src:dest": further demonstration files to place.
+if [ -n "${EXTRA:-}" ]; then IFS=, read -ra PAIRS <<< "$EXTRA"; for p in "${PAIRS[@]}"; do mkdir -p "$(dirname "${p#*:}")"; cp "${p%%:*}" "${p#*:}"; done; fi
 ( cd "$MOD" && go test -vet=off -count=1 "$@" ) > "$WT/demo_with.log" 2>&1; with=$?
 git apply -R "$PATCH"
 ( cd "$MOD" && go test -vet=off -count=1 "$@" ) > "$WT/demo_without.log" 2>&1; without=$?
